@@ -14,7 +14,7 @@
 EXTENDS FlatOps, Json
 
 CONSTANTS MsgT, Msgs,      \* message type and the sequence of message byte strings to send (each already cut to size())
-          ChunkMax, FaultMax, Retry, Record
+          ChunkMax, FaultMax, Retry, ErrKinds, Record
 
 VARIABLES mi,        \* index of the message being sent (1..Len(Msgs)+1)
           spc,       \* "idle" "writing" / terminal: "done" "poisoned"
@@ -27,7 +27,8 @@ VARIABLES mi,        \* index of the message being sent (1..Len(Msgs)+1)
 vars == <<mi, spc, pos, sink, rets, wcalls, faults, retries, stuck, path>>
 View == <<mi, spc, pos, sink, rets, wcalls, faults, retries, stuck>>
 
-Ev(e, n) == [e |-> e, n |-> n, m |-> mi, pos |-> pos]
+Ev(e, n) == [e |-> e, n |-> n, m |-> mi, pos |-> pos, kind |-> ""]
+EvK(e, n, ek) == [e |-> e, n |-> n, m |-> mi, pos |-> pos, kind |-> ek]
 Log(ev) == path' = IF Record THEN Append(path, ev) ELSE path
 
 Init == mi = 1 /\ spc = "idle" /\ pos = 0 /\ sink = <<>> /\ rets = <<>> /\ wcalls = 0 /\ faults = 0 /\ retries = 0 /\ stuck = "no" /\ path = <<>>
@@ -55,10 +56,11 @@ WriteOk ==
 
 WriteFail(kind) ==          \* kind: "zero" (write returned 0) or "err"
   /\ spc = "writing" /\ pos < Len(Cur)
-  /\ \/ stuck = kind /\ UNCHANGED <<stuck, faults>> /\ Log(Ev(kind, 2))                       \* the persistent fault again
+  /\ \E ek \in (IF kind = "err" THEN ErrKinds ELSE {""}) :
+     \/ stuck = kind /\ UNCHANGED <<stuck, faults>> /\ Log(EvK(kind, 2, ek))                    \* the persistent fault again
      \/ stuck = "no" /\ faults < FaultMax /\ faults' = faults + 1
-        /\ \/ stuck' = "no" /\ Log(Ev(kind, 0))                                           \* transient
-           \/ stuck' = kind /\ Log(Ev(kind, 1))                                           \* from now on, forever
+        /\ \/ stuck' = "no" /\ Log(EvK(kind, 0, ek))                                        \* transient
+           \/ stuck' = kind /\ Log(EvK(kind, 1, ek))                                        \* from now on, forever
   /\ wcalls' = wcalls + 1
   /\ IF pos > 0 THEN spc' = "poisoned" /\ Finish("err") /\ UNCHANGED retries
      ELSE \/ spc' = "idle" /\ Finish("err") /\ UNCHANGED retries
